@@ -21,6 +21,9 @@ def run(ctx):
     ctx.rule("R07-1", "after run_pipeline returns with the terminal-given flag set, give_terminal_to(getpgid(0)) is on "
                       "every path to the caller's return / next iteration; in fg, after a successful "
                       "give_terminal_to(job.gid): wait_fg_job, then give_terminal_to(getpgid(0)) on every path")
+    ctx.rule("R07-11", "Ctrl-Z and Ctrl-\\ reach the job: SIGTSTP / SIGQUIT (and anything else the shell ignores) are set back to "
+                       "SIG_DFL in the child before exec on every path - an ignored disposition is inherited through "
+                       "execve and the job could never be stopped from the keyboard (the analysis of C02 R02-9)")
     ctx.rule("R07-2", "give_terminal_to(child) in the parent is guarded by has_terminal, isatty, !background and only "
                       "for stage 0; its result is stored through the term_given out-parameter")
     ctx.rule("R07-3", "child: setpgid(0, getpid()) in stage 0, setpgid(0, *pgid) otherwise, before exec on every path; "
@@ -66,6 +69,8 @@ def run(ctx):
             v["key"] = ren[v["rule"]] + v["key"][5:]
             v["rule"] = ren[v["rule"]]
         ctx.violations[v["key"]] = v
+    from .c02 import inherited_dispositions_rule
+    inherited_dispositions_rule(ctx, "R07-11")
 
 
 def pairing_rule(ctx, crate):
